@@ -4,7 +4,9 @@ import Gp.Model.PoolBase
 
   Modelled source (tcpassembly/assembly.go): StreamPool.getConnection, newConnection (+grow),
   connection.reset, remove, connections, Assembler.AssembleWithTimestamp (retry loop, lifecycle part of
-  the body), sendToConnection ("why?" panic, End ⇒ closeConnection), closeConnection, skipFlush, FlushAll.
+  the body), sendToConnection ("why?" panic, End ⇒ closeConnection), closeConnection, skipFlush, FlushAll,
+  FlushWithOptions / FlushOlderThan (`Op.flushold T c`: snapshot, per connection lock, the `closed`
+  early-out, release of queued data older than T, CloseAll ⇒ close of a drained idle connection).
 
   Threads are assembler goroutines; a thread's program is a list of `Op`s.  One transition = one
   *atomic segment* between two scheduling points.  Scheduling points (the `verifYield` hooks) sit
@@ -25,16 +27,24 @@ import Gp.Model.PoolBase
 namespace Gp.Pool.Asm
 open Gp.Pool
 
-/-- `connection` (lifecycle-relevant fields). `started` ⇔ nextSeq ≠ invalidSequence; `q` = number of
-    queued pages (only `rst` packets are ever queued, so every queued page has End set). -/
+/-- `connection` (lifecycle-relevant fields). `started` ⇔ nextSeq ≠ invalidSequence.  The page list
+    `first…last` is `q` pages of `rst` packets (seq 1001, seen at `Kind.ts0`; only an unstarted connection
+    has them) followed by the pages of `late` packets (seq 1101), whose timestamps are `lq` in queue
+    order.  Every queued page has End set.  `seen` = lastSeen.  closeConnection does NOT clear the page
+    list (it only returns the pages to the page cache): `lq` of a closed connection is left as it is. -/
 structure Conn where
   key     : Key := ⟨0, false⟩
   stream  : Option SId := none      -- nil until the first reset
   closed  : Bool := false
   started : Bool := false
   q       : Nat := 0
+  lq      : List Nat := []
+  seen    : Nat := 0
   mu      : Option Tid := none      -- owner of connection.mu
   deriving DecidableEq, Repr, Inhabited
+
+/-- `conn.first.Seen` (none ⇔ `conn.first == nil`) -/
+def Conn.firstSeen (o : Conn) : Option Nat := if o.q > 0 then some Kind.ts0 else o.lq.head?
 
 inductive PC where
   | start
@@ -49,7 +59,7 @@ structure Thread where
   prog : List Op := []              -- remaining ops; head = current
   pos  : Nat := 0                   -- index of the current op
   pc   : PC := .start
-  snap : Option (List CId) := none  -- FlushAll in progress: connections still to visit
+  snap : Option (List CId) := none  -- Flush* in progress: connections still to visit
   deriving DecidableEq, Repr, Inhabited
 
 structure State where
@@ -74,7 +84,7 @@ def finishOp (s : State) (t : Tid) : State :=
   let th := s.thr t
   setThr s t { prog := th.prog.tail, pos := th.pos + 1, pc := .start, snap := none }
 
-/-- After releasing a connection: next connection of a FlushAll snapshot, else the op is finished. -/
+/-- After releasing a connection: next connection of a Flush* snapshot, else the op is finished. -/
 def advance (s : State) (t : Tid) : State :=
   let th := s.thr t
   match th.snap with
@@ -86,12 +96,16 @@ def doPanic (s : State) (t : Tid) : State :=
   addLog (setThr s t { s.thr t with pc := .panicked }) (.panic t)
 
 /-- Y1/A1(+A2).  Assemble: RLock; conn := conns[k]; RUnlock; `if end || conn != nil {return conn}`;
-    `s := factory.New(k)`.   FlushAll: `connections()` snapshot. -/
+    `s := factory.New(k)`.   FlushAll / FlushWithOptions: `connections()` snapshot. -/
 def stepStart (s : State) (t : Tid) : Option State :=
   let th := s.thr t
   match th.prog with
   | [] => none
   | .flush :: _ =>
+    match s.conns.vals with
+    | [] => some (finishOp s t)
+    | c :: rest => some (setThr s t { th with pc := .lock c, snap := some rest })
+  | .flushold _ _ :: _ =>
     match s.conns.vals with
     | [] => some (finishOp s t)
     | c :: rest => some (setThr s t { th with pc := .lock c, snap := some rest })
@@ -110,13 +124,14 @@ def stepStart (s : State) (t : Tid) : Option State :=
 def stepIns (s : State) (t : Tid) (sid : SId) : Option State :=
   let th := s.thr t
   match th.prog with
-  | .pkt k _ :: _ =>
+  | .pkt k kind :: _ =>
     let c := match s.free with | [] => s.nextC | c :: _ => c
     let s1 : State := match s.free with
       | [] => { s with nextC := s.nextC + 1 }
       | _ :: f => { s with free := f }
     let o := s1.obj c
-    let s2 := setObj s1 c { o with key := k, stream := some sid, closed := false, started := false, q := 0 }
+    let s2 := setObj s1 c { o with key := k, stream := some sid, closed := false, started := false, q := 0,
+                                   lq := [], seen := kind.ts }
     match s2.conns.get k with
     | some c2 => some (setThr s2 t { th with pc := .lock c2 })
     | none => some (setThr { s2 with conns := s2.conns.set k c, kept := upd s2.kept sid true } t { th with pc := .lock c })
@@ -130,32 +145,64 @@ def doClose (s : State) (t : Tid) (c : CId) : State :=
   | some sid =>
     setThr (addLog (setObj s c { o with closed := true }) (.complete sid t)) t { s.thr t with pc := .rm c }
 
+/-- skipFlush on a connection with queued pages (c.mu just taken by `t`): pop the first page and
+    everything contiguous with it — the `q` rst pages if there are any (the late pages, seq 1101, are
+    not contiguous with them), else ALL late pages (they cover the same bytes) — one Reassembled
+    callback whose last Reassembly has End. -/
+def flushDeliver (s : State) (t : Tid) (c : CId) : State :=
+  let th := s.thr t
+  let o := s.obj c
+  match o.stream with
+  | none => doPanic (setObj s c { o with mu := some t }) t     -- sendToConnection: panic("why?")
+  | some sid =>
+    if o.q > 0 then
+      setThr (addLog (setObj s c { o with mu := some t, started := true, q := 0 }) (.fdeliv sid t th.pos o.q))
+        t { th with pc := .cb c true }
+    else
+      setThr (addLog (setObj s c { o with mu := some t, started := true, lq := [] }) (.fdeliv sid t th.pos o.lq.length))
+        t { th with pc := .cb c true }
+
 /-- Y3/A4.  c.mu.Lock; Assemble: `if conn.closed {Unlock; retry}`; body up to the Reassembled callback.
-    FlushAll: `for !conn.closed { skipFlush }`. -/
+    FlushAll: `for !conn.closed { skipFlush }`.
+    FlushWithOptions{T, CloseAll}: `if conn.closed {Unlock; continue}`;
+    `for conn.first != nil && conn.first.Seen.Before(T) { skipFlush; if conn.closed {break} }` (every
+    queued page has End, so the first skipFlush closes); `if CloseAll && !closed && first == nil &&
+    lastSeen.Before(T) { closeConnection }`. -/
 def stepLock (s : State) (t : Tid) (c : CId) : Option State :=
   let th := s.thr t
   let o := s.obj c
   if o.mu.isSome then none else
   match th.snap, th.prog with
+  | some _, .flushold T ca :: _ =>
+    -- FlushWithOptions
+    if o.closed then some (advance s t)
+    else
+      match o.firstSeen with
+      | some fs =>
+        if fs < T then some (flushDeliver s t c)
+        else some (advance s t)                         -- first != nil: neither flushed nor closed
+      | none =>
+        if ca != 0 && o.seen < T then some (doClose (setObj s c { o with mu := some t }) t c)
+        else some (advance s t)
   | some _, _ =>
     -- FlushAll
     if o.closed then some (advance s t)
-    else if o.q > 0 then
-      match o.stream with
-      | none => some (doPanic (setObj s c { o with mu := some t }) t)     -- sendToConnection: panic("why?")
-      | some sid =>
-        some (setThr (addLog (setObj s c { o with mu := some t, started := true, q := 0 }) (.fdeliv sid t th.pos o.q))
-                t { th with pc := .cb c true })
+    else if o.firstSeen.isSome then some (flushDeliver s t c)
     else some (doClose (setObj s c { o with mu := some t }) t c)
   | none, .pkt k kind :: _ =>
     if o.closed then some (setThr s t { th with pc := .start })        -- Unlock; loop
     else
-      -- body: lifecycle effect of the sequence logic for the three packet shapes
-      let queued := kind = .rst && !o.started
+      -- `if conn.lastSeen.Before(timestamp) { conn.lastSeen = timestamp }`
+      let o := { o with seen := max o.seen kind.ts }
+      -- body: lifecycle effect of the sequence logic for the four packet shapes
+      let queued := (kind = .rst && !o.started) || kind.isLate
       if queued then
+        let o' : Conn := match kind with
+          | .late ts => { o with lq := o.lq ++ [ts] }
+          | _ => { o with q := o.q + 1 }
         match o.stream with
-        | none => some (advance (addLog (setObj s c { o with q := o.q + 1 }) (.queue 0 t th.pos k)) t)
-        | some sid => some (advance (addLog (setObj s c { o with q := o.q + 1 }) (.queue sid t th.pos k)) t)
+        | none => some (advance (addLog (setObj s c o') (.queue 0 t th.pos k)) t)
+        | some sid => some (advance (addLog (setObj s c o') (.queue sid t th.pos k)) t)
       else
         let n := if o.started then 1 else 1 + o.q
         let fin := if o.started then kind != .syn else decide (o.q > 0)
